@@ -251,6 +251,8 @@ def build(ast, refs, attr_item_labels=()):
         return f(*args, **kw)
     if t == "item":
         return build(ast[1], refs, attr_item_labels)[build(ast[2], refs, attr_item_labels)]
+    if t == "cattr":        # attribute access below a computed item: ["cattr", owner_ast, ["lit", name]]
+        return getattr(build(ast[1], refs, attr_item_labels), dec(ast[2][1]))
     if t == "litexpr":
         from xdeps.refs import LiteralExpr
         return LiteralExpr(dec(ast[1][1]))
@@ -286,7 +288,7 @@ def has_ref(ast):
         return True
     if t == "lit":
         return False
-    if t in ("bin", "eq", "neq", "item"):
+    if t in ("bin", "eq", "neq", "item", "cattr"):
         return has_ref(ast[-2]) or has_ref(ast[-1])
     if t == "un":
         return has_ref(ast[2])
@@ -340,6 +342,8 @@ def _mirror(ast, roots, limit):
                       **{k: _mirror(a, roots, limit) for k, a in ast[3]}), limit)
     if t == "item":
         return _mirror(ast[1], roots, limit)[_mirror(ast[2], roots, limit)]
+    if t == "cattr":
+        return getattr(_mirror(ast[1], roots, limit), dec(ast[2][1]))
     if t == "eq":
         return _mirror(ast[1], roots, limit) == _mirror(ast[2], roots, limit)
     if t == "neq":
@@ -352,7 +356,7 @@ def subterms(ast):
     t = ast[0]
     if t in ("loc", "lit", "litexpr"):
         return []
-    if t in ("bin", "eq", "neq", "item"):
+    if t in ("bin", "eq", "neq", "item", "cattr"):
         return [ast[-2], ast[-1]]
     if t == "un":
         return [ast[2]]
@@ -380,7 +384,7 @@ def deps(ast, out=None):
     if t == "loc":
         for p in prefixes(loc_key(ast)):
             out.add(("loc",) + p)
-    elif t == "item":
+    elif t in ("item", "cattr"):
         deps(ast[1], out)
         deps(ast[2], out)
         out.add(("term", canon_ast(ast)))
@@ -521,6 +525,8 @@ def render(ast):
         return f"{render(ast[1])}({', '.join(args)})"
     if t == "item":
         return f"{render(ast[1])}[{render(ast[2])}]"
+    if t == "cattr":
+        return f"{render(ast[1])}.{dec(ast[2][1])}"
     if t == "eq":
         return f"{render(ast[1])}._eq({render(ast[2])})"
     if t == "neq":
